@@ -1,0 +1,86 @@
+// SPDX-FileCopyrightText: 2026 The Pion community <https://pion.ly>
+// SPDX-License-Identifier: MIT
+
+//go:build verif && verif_c23 && !js
+
+package webrtc
+
+import (
+	"github.com/pion/logging"
+	"github.com/pion/sdp/v3"
+)
+
+// VerifC23TrackDetails mirrors the unexported trackDetails for the
+// verification harness (property C23).
+type VerifC23TrackDetails struct {
+	Mid      string
+	Kind     RTPCodecType
+	StreamID string
+	ID       string
+	SSRCs    []SSRC
+	RTX      *SSRC
+	FEC      *SSRC
+	RIDs     []string
+}
+
+// VerifC23TrackDetailsFromSDP parses raw with pion/sdp and returns what
+// trackDetailsFromSDP extracts from it.
+func VerifC23TrackDetailsFromSDP(raw string) ([]VerifC23TrackDetails, error) {
+	parsed := &sdp.SessionDescription{}
+	if err := parsed.UnmarshalString(raw); err != nil {
+		return nil, err
+	}
+	lf := logging.NewDefaultLoggerFactory()
+	lf.DefaultLogLevel = logging.LogLevelDisabled
+	details := trackDetailsFromSDP(lf.NewLogger("verif"), parsed)
+	out := make([]VerifC23TrackDetails, 0, len(details))
+	for i := range details {
+		d := details[i]
+		out = append(out, VerifC23TrackDetails{
+			Mid: d.mid, Kind: d.kind, StreamID: d.streamID, ID: d.id,
+			SSRCs: append([]SSRC{}, d.ssrcs...), RTX: d.rtxSsrc, FEC: d.fecSsrc,
+			RIDs: append([]string{}, d.rids...),
+		})
+	}
+
+	return out, nil
+}
+
+// VerifC23CodecByPayload exposes MediaEngine.getCodecByPayload.
+func (m *MediaEngine) VerifC23CodecByPayload(pt PayloadType) (RTPCodecParameters, RTPCodecType, error) {
+	return m.getCodecByPayload(pt)
+}
+
+// VerifC23FuzzySearch exposes codecParametersFuzzySearch (0 = no match,
+// 1 = partial, 2 = exact), the lookup TrackLocalStaticRTP.Bind uses.
+func VerifC23FuzzySearch(needle RTPCodecParameters, haystack []RTPCodecParameters) (RTPCodecParameters, int) {
+	c, m := codecParametersFuzzySearch(needle, haystack)
+	switch m {
+	case codecMatchExact:
+		return c, 2
+	case codecMatchPartial:
+		return c, 1
+	default:
+		return c, 0
+	}
+}
+
+// VerifC23EngineState returns the codec lists getCodecByPayload consults, in
+// their stored order.
+func (m *MediaEngine) VerifC23EngineState() (
+	negotiatedVideo bool, negVideo []RTPCodecParameters,
+	negotiatedAudio bool, negAudio []RTPCodecParameters,
+	video, audio []RTPCodecParameters,
+) {
+	m.mu.RLock()
+	defer m.mu.RUnlock()
+
+	return m.negotiatedVideo, append([]RTPCodecParameters{}, m.negotiatedVideoCodecs...),
+		m.negotiatedAudio, append([]RTPCodecParameters{}, m.negotiatedAudioCodecs...),
+		append([]RTPCodecParameters{}, m.videoCodecs...), append([]RTPCodecParameters{}, m.audioCodecs...)
+}
+
+// VerifC23MediaEngine returns the PeerConnection's own (copied) MediaEngine.
+func (pc *PeerConnection) VerifC23MediaEngine() *MediaEngine {
+	return pc.api.mediaEngine
+}
